@@ -7,9 +7,9 @@
     What the implementation does NOT do is check the constraints inside that markup, and it looks for
     references in the entity LITERAL, not in the replacement text: this is finding WF13.  The
     exclusion [markup_ent] keeps clear of it: in the replacement text read as content -- names at the
-    D04 positions are Names, elements carry no attributes, every entity reference is a reference of
-    the literal, every character reference is a legal character -- and no character reference of the
-    literal yields `&`.
+    D04 positions are Names, the attributes of an element have distinct names and values without
+    entity references, every entity reference is a reference of the literal, every character
+    reference is a legal character -- and no character reference of the literal yields `&`.
 
     Same route as Proofs/XmlWFSyntaxEntRec.v: (A) the model's depth-first check answers Ok only for
     entities GOOD at some height ([goodb2]: now including "the replacement text is content" in content
@@ -33,7 +33,17 @@ Definition ent_content (vs : list ent_value) : option content :=
   | _ => None
   end.
 
-(** markup without attributes, entity references among [M], legal character references *)
+(** markup whose attributes have distinct names and values without entity references, entity references
+    in content among [M], legal character references *)
+Definition plainav (v : att_value) : bool :=
+  match v with
+  | AvText _ => true
+  | AvReference (RefChar num r) => W.isChar (W.number (radix_n r) num)
+  | AvReference (RefEntity _) => false
+  end.
+Definition plain_attrs (attrs : list attribute) : bool :=
+  W.nodup_names (map att_nm attrs) && forallb (fun a => forallb plainav (at_value a)) attrs.
+
 Section MK.
 Variable M : list str.
 Variable rec : element -> bool.
@@ -50,7 +60,7 @@ End MK.
 Fixpoint mk_elem (M : list str) (e : element) : bool :=
   match e with
   | Element _ attrs c =>
-    match attrs with [] => true | _ => false end
+    plain_attrs attrs
     && match c with None => true | Some (_, cells) => mk_cells M (mk_elem M) cells end
   end.
 
@@ -122,6 +132,24 @@ Proof.
   unfold W.mem. intros H. apply existsb_exists in H. destruct H as [x [Hin E]]. apply Wstr_eqb_eq in E. subst x. exact Hin.
 Qed.
 
+Lemma plain_av_ok en f' (l : list att_value) : forallb plainav l = true -> W.av_ok (Datatypes.S f') en [] (x_av l) = None.
+Proof.
+  induction l as [|v l IH]; intros H; [reflexivity|]. cbn [forallb] in H. apply andb_prop in H. destruct H as [Hv Hl].
+  change (x_av (v :: l)) with (x_avpiece v ++ x_av l). cbn [W.av_ok]. apply allc_app; [|exact (IH Hl)].
+  destruct v as [[num r|n]|s]; cbn [plainav x_avpiece] in *; try discriminate Hv.
+  - destruct r; cbn [x_ref W.piece_of_ref radix_n] in *; cbn [W.allc fold_right]; rewrite Hv; reflexivity.
+  - apply allc_map_ok. reflexivity.
+Qed.
+
+Lemma plain_attrs_ok en f' (a : list attribute) : plain_attrs a = true ->
+  W.nodup_names (map fst (map x_att a)) = true /\ W.allc (fun x : str * list W.avpiece => W.av_ok (Datatypes.S f') en [] (snd x)) (map x_att a) = None.
+Proof.
+  unfold plain_attrs. intros H. apply andb_prop in H. destruct H as [Hn Hv]. split.
+  - rewrite map_map. exact Hn.
+  - clear Hn. induction a as [|x a IH]; [reflexivity|]. cbn [forallb] in Hv. apply andb_prop in Hv. destruct Hv as [Hx Ha].
+    cbn [map]. apply allc_cons; [|exact (IH Ha)]. cbn [x_att snd]. apply plain_av_ok. exact Hx.
+Qed.
+
 Lemma cells_all_intro (P : element -> Prop) (cells : list cell) : (forall e, P e) -> cells_all P cells.
 Proof. intros H. induction cells as [|[ch t] l IH]; constructor; [|exact IH]. cbn [fst]. destruct ch; try exact I. apply H. Qed.
 
@@ -130,7 +158,7 @@ Variable en : W.env.
 Variable f : nat.
 Variable V M : list str.
 Notation F := (Datatypes.S f).
-Definition fine (y : W.xcontent) : Prop := forall f', W.tree_ok f' en y = None.
+Definition fine (y : W.xcontent) : Prop := forall f', W.tree_ok (Datatypes.S f') en y = None.
 Hypothesis HM : forall m, In m M -> exists x', W.expand F en V (W.XEntRef m) = inr x' /\ fine x'.
 
 Lemma m_expand_elem nm atts et kids : W.expand F en V (W.XElem nm atts et kids) =
@@ -147,7 +175,7 @@ Qed.
 Definition elem_exp (e : element) : Prop :=
   mk_elem M e = true -> exists x', W.expand F en V (x_elem e) = inr x' /\ fine x'.
 
-Lemma fine_all f' (l : list W.xcontent) : Forall fine l -> W.allc (W.tree_ok f' en) l = None.
+Lemma fine_all f' (l : list W.xcontent) : Forall fine l -> W.allc (W.tree_ok (Datatypes.S f') en) l = None.
 Proof. intros H. apply allc_forall. revert H. apply Forall_impl. intros y Hy. apply Hy. Qed.
 
 Lemma cells_exp (cells : list cell) : cells_all elem_exp cells -> mk_cells M (mk_elem M) cells = true ->
@@ -171,12 +199,13 @@ Qed.
 Theorem elem_exp_all : forall e, elem_exp e.
 Proof.
   apply element_ind2.
-  - intros n a Hok. cbn [mk_elem] in Hok. destruct a as [|a0 a]; [|discriminate Hok].
-    cbn [x_elem map]. rewrite m_expand_elem. cbn [W.mapM]. eexists. split; [reflexivity|]. intros f'. reflexivity.
-  - intros n a h cells Hcells Hok. cbn [mk_elem] in Hok. destruct a as [|a0 a]; [|discriminate Hok]. cbn [andb] in Hok.
+  - intros n a Hok. cbn [mk_elem] in Hok. rewrite andb_true_r in Hok.
+    cbn [x_elem]. rewrite m_expand_elem. cbn [W.mapM]. eexists. split; [reflexivity|]. intros f'.
+    destruct (plain_attrs_ok en f' a Hok) as [Hnd Hav]. cbn [W.tree_ok]. rewrite Hnd, Hav. reflexivity.
+  - intros n a h cells Hcells Hok. cbn [mk_elem] in Hok. apply andb_prop in Hok. destruct Hok as [Hat Hok].
     destruct (cells_exp cells Hcells Hok) as [kl [Ekl Fkl]]. destruct (m_text h) as [Et Ft].
-    cbn [x_elem map]. rewrite m_expand_elem. rewrite (mapM_app _ _ _ _ _ Et Ekl). eexists. split; [reflexivity|].
-    intros f'. cbn [W.tree_ok]. rewrite Wstr_eqb_refl. cbn [map W.nodup_names W.guard W.andc W.allc fold_right].
+    cbn [x_elem]. rewrite m_expand_elem. rewrite (mapM_app _ _ _ _ _ Et Ekl). eexists. split; [reflexivity|].
+    intros f'. destruct (plain_attrs_ok en f' a Hat) as [Hnd Hav]. cbn [W.tree_ok]. rewrite Wstr_eqb_refl, Hnd, Hav. cbn [W.guard W.andc].
     apply fine_all. apply Forall_app. split; assumption.
 Qed.
 
@@ -347,7 +376,7 @@ Notation look := (lookup ents).
 Theorem expand_good2 : forall h nm e V fuel, look nm = Some e -> goodb2 ents ext false h e = true ->
   (forall v ev, In v V -> look v = Some ev -> goodb2 ents ext false h ev = false) ->
   NoDup V -> incl V names -> (length names < fuel + length V)%nat ->
-  exists x', W.expand fuel en V (W.XEntRef nm) = inr x' /\ forall f', W.tree_ok f' en x' = None.
+  exists x', W.expand fuel en V (W.XEntRef nm) = inr x' /\ forall f', W.tree_ok (Datatypes.S f') en x' = None.
 Proof.
   induction h as [|k IH]; intros nm e V fuel Hl Hg Hinv Hnd Hincl Hfu; [discriminate Hg|].
   destruct (goodb2 ents ext false k e) eqn:Egk.
@@ -379,7 +408,7 @@ Proof.
           + intros v ev [<-|Hv] Hlv; [rewrite Hl in Hlv; injection Hlv as <-; exact Egk|].
             specialize (Hinv v ev Hv Hlv). destruct (goodb2 ents ext false k ev) eqn:E; [|reflexivity]. apply goodb2_mono in E. congruence.
           + cbn [length] in *. lia.
-        - apply (expand_undeclared ents ext en Hrel); assumption. }
+        - destruct (expand_undeclared ents ext en Hrel m (nm :: V) f0) as [x0 [E0 T0]]; try assumption. exists x0. split; [exact E0|]. intros f'. apply T0. }
       exists (W.XExp nm ys). split.
       * rewrite expand_entref_eq. rewrite Hmem, Ha, Hpc, Eys. reflexivity.
       * intros f'. cbn [W.tree_ok]. apply fine_all. exact Pys.
@@ -451,11 +480,11 @@ Proof.
 Qed.
 
 Lemma ref_content_ok_m f nm e : (length ents <= f)%nat -> resolve_ref ents ext false nm = IOk e ->
-  exists x', W.expand (Datatypes.S (Datatypes.S f)) en [] (W.XEntRef nm) = inr x' /\ forall f', W.tree_ok f' en x' = None.
+  exists x', W.expand (Datatypes.S (Datatypes.S f)) en [] (W.XEntRef nm) = inr x' /\ W.tree_ok (Datatypes.S (Datatypes.S f)) en x' = None.
 Proof.
   intros Hf H. destruct (resolve_good2 _ _ _ H) as [[Fl Hp]|[Fl [h Hg]]].
   - destruct (predef_lookup nm Hp) as [text [items [ps [E1 [E2 [E3 _]]]]]].
     destruct (expand_ref_internal (Datatypes.S f) en nm text items) as [Ex Ot]; [rewrite (assoc_undeclared ents ext en Hrel nm Fl); exact E1|exact E2|exact E3|]. eauto.
-  - apply (expand_good2 h nm e [] _ Fl Hg); [intros v ev []|constructor|intros x []|]. rewrite map_length. cbn [length]. lia.
+  - destruct (expand_good2 h nm e [] (Datatypes.S (Datatypes.S f)) Fl Hg) as [x' [Ex Tx]]; [intros v ev []|constructor|intros x []| |eauto]. rewrite map_length. cbn [length]. lia.
 Qed.
 End Spec2.
